@@ -286,7 +286,15 @@ impl NcWorld {
                 .rposition(|e| e.desc["org"] == json!("S") && e.desc.get("to").and_then(|x| x.as_i64()) == Some(a))
                 .map(|p| p + 1);
         }
-        self.names.get(s).copied()
+        if let Some(k) = self.names.get(s) {
+            return Some(*k);
+        }
+        // model-exported schedules name emissions "e<k>" by emission number; a step that emits several datagrams registers only
+        // its first one under the name given with "as", the others are found by their number
+        if let Some(n) = s.strip_prefix('e').and_then(|x| x.parse::<usize>().ok()) {
+            return if n >= 1 && n <= self.emitted.len() { Some(n) } else { None };
+        }
+        None
     }
 
     fn record(&mut self, bytes: &[u8], org: &str, from: SocketAddr) -> Value {
@@ -455,7 +463,8 @@ impl<W: Write> NcRunner<W> {
             }
             "Response" | "Challenge" => {
                 // echo the challenge token of an emitted Challenge (or Response) datagram, or forge one under a foreign key
-                let from = getu(st, "chal_from") as usize;
+                // the source datagram is referred to by emission number or by name (model-exported schedules use names)
+                let from = st.get("chal_from").and_then(|v| w.resolve(v)).unwrap_or(0);
                 let (tseq, tdata) = if from >= 1 && from <= w.emitted.len() {
                     let src = &w.emitted[from - 1];
                     let mut found = None;
